@@ -308,14 +308,24 @@ def run(ctx):
     for case, ob, v in res[:2] + res[-2:]:
         ctx.sample({"case": case, "impl": {k: ob[k] for k in ("rc", "outs", "hist", "error") if k in ob}, "verdict": v})
     by_sig, l2_bad, matchsets = process(ctx, res, "random")
+    # more volume of (a), (c) and repeated list names through the in-process entry point
+    more = []
+    for _ in range(ctx.n(2, 30)):
+        for combo in range(192):
+            more.append(sc.gen_case(rng, combo=combo, allow_empty_fastq=rng.random() < 0.1,
+                                    dup_list_names=True if rng.random() < 0.15 else None))
+    by_sig1, l2_bad1, matchsets1 = process(ctx, evaluate(ctx, more, "randomb", batch=True), "random_batch")
+    merge(by_sig, by_sig1)
+    l2_bad += l2_bad1
+    matchsets += matchsets1
 
     # (b) exhaustive small space
-    ex = list(exhaustive_cases(ctx.n(2, 4)))
+    ex = list(exhaustive_cases(ctx.n(2, 5)))
     res2 = evaluate(ctx, ex, "exh", batch=True)
     ctx.extra["exhaustive_cases"] = len(ex)
     ctx.exhaustive = True
     by_sig2, l2_bad2, matchsets2 = process(ctx, res2, "exhaustive")
-    ctx.extra["violating_cases_random_stream"] = {k: len(v) for k, v in sorted(by_sig.items())}
+    ctx.extra["violating_cases_random_streams"] = {k: len(v) for k, v in sorted(by_sig.items())}
     ctx.extra["violating_cases_exhaustive_stream"] = {k: len(v) for k, v in sorted(by_sig2.items())}
     merge(by_sig, by_sig2)
     l2_bad += l2_bad2
